@@ -46,6 +46,15 @@ def hop? : Sexp → Option HOp
       pure (.load ⟨fn, rel, cls, enc, cb, fault⟩)
   | _ => none
 
+/-- `LW …`: a load during which the file it opens is rewritten in place (content new / time old) -/
+def hopW? : Sexp → Option HOpW
+  | .list [.atom "LW", fn, rel, cls, enc, cb, fault, c, bad] => do
+      let fn ← fn.toStr?; let rel ← optStr? rel
+      let cls ← cls.toNat?; let enc ← enc.toNat?; let cb ← cb.toBool?; let fault ← fault? fault
+      let c ← c.toNat?; let bad ← bad.toBool?
+      pure (.loadRewrite ⟨fn, rel, cls, enc, cb, fault⟩ c bad)
+  | x => (hop? x).map .plain
+
 def errS : Err → Sexp
   | .notFound => .atom "TemplateNotFound"
   | .syntaxError => .atom "TemplateSyntaxError"
@@ -77,17 +86,26 @@ def specS (cfg : Cfg) (w : World) (r : Req) : Sexp :=
     | .raised => .atom "raised"
     | .file fp name f => .list [.atom "file", .str fp, .str name, ofNat f.content, ofBool f.bad]
 
-def histRun (cfg : Cfg) : World → List HOp → List Sexp
+def histRun (cfg : Cfg) : World → List HOpW → List Sexp
   | _, [] => []
   | w, op :: ops =>
-    let (w', o) := hstep cfg w op
-    let here : Sexp := match op, o with
-      | .load r, some res =>
+    let (w', o) := hstepW cfg w op
+    let req : Option Req := match op with
+      | .plain (.load r) => some r
+      | .loadRewrite r _ _ => some r
+      | _ => none
+    let here : Sexp := match req, o with
+      | some r, some res =>
         let key := resolve cfg.path.isEmpty r
-        .list [resS res, .str key,
+        let common := [resS res, .str key,
           .list (w'.ls.cache.items.map fun (k, t) => .list [.str k, ofNat t.obj]),
           ofNat w'.ls.cbLog.length, ofNat w'.ls.parsed.length, ofNat w'.ls.lock,
           utdS (w'.ls.utd key), specS cfg w r]
+        match op with
+        -- a load with a rewrite also says which file was rewritten (none: no file was opened)
+        | .loadRewrite _ _ _ => .list (common ++ [match wouldOpen cfg w.fs w.ls r with
+            | some p => .str p | none => .atom "N"])
+        | _ => .list common
       | _, _ => .atom "U"
     here :: histRun cfg w' ops
 
@@ -101,7 +119,7 @@ def handle : List Sexp → Option Sexp
   | [.atom "phist", cap, ar, cb, .list path, .list ops] => do
       let cap ← cap.toNat?; let ar ← ar.toBool?; let cb ← cb.toBool?
       let path ← path.mapM entry?
-      let ops ← ops.mapM hop?
+      let ops ← ops.mapM hopW?
       pure (.list (histRun ⟨path, ar, cap, cb⟩ (World.init cap) ops))
   | [.atom "ppath", .list strs] => do
       let strs ← strs.mapM (·.toStr?)
